@@ -219,42 +219,41 @@ def _run_chunk(k):
 
 
 def corrupt_one_observation(traces):
-    """a deep copy of the recorded traces in which ONE logged observation (an integer, else a Boolean, found in a field whose
-    name says it was observed on the library) is altered; used by `./check selftest` to show that every trace specification
-    rejects a trace the library did not produce"""
+    """a deep copy of the recorded traces in which ONE logged observation is altered: an integer inside an observed array if
+    there is one (the middle one of the middle trace), else an observed integer, else an observed Boolean; used by
+    `./check selftest` to show that every trace specification rejects a trace the library did not produce"""
     import copy
     bad = copy.deepcopy(traces)
-    observed = ("r", "res", "ret", "out", "obs", "post", "got", "back", "n", "vals", "valid", "arr", "field", "value", "values",
-                "result", "ok", "cpok", "ipok", "agree", "norm2", "xs", "data")
-
-    def walk(node, under):
-        if isinstance(node, dict):
-            for k in sorted(node):
-                if k in ("id", "tid", "seed"):
-                    continue
-                hit = walk(node[k], under or k in observed)
-                if hit is not None:
-                    node[k] = hit[0]
-                    return (node,)
-        elif isinstance(node, list):
-            for i, v in enumerate(node):
-                hit = walk(v, under)
-                if hit is not None:
-                    node[i] = hit[0]
-                    return (node,)
-        elif under and isinstance(node, bool):
-            return (not node,)
-        elif under and isinstance(node, int):
-            return (node + 1,)
-        return None
-
-    # alter an observation in the middle of the batch, inside the events (not the initial description)
+    observed = ("r", "res", "ret", "out", "obs", "post", "got", "back", "vals", "valid", "arr", "field", "value", "values",
+                "result", "norm2", "xs", "data", "D", "q", "charge", "angle", "comps", "v", "n", "bl", "cont", "ok", "cpok", "ipok", "agree")
     seq = bad if isinstance(bad, list) else [bad]
-    for t in seq[len(seq) // 2:] + seq[:len(seq) // 2]:
-        evs = t.get("ev", t.get("events")) if isinstance(t, dict) else None
-        target = evs if evs else t
-        if walk(target, not evs and isinstance(t, dict) and "ev" not in t) is not None:
-            return bad
+    order = seq[len(seq) // 2:] + seq[:len(seq) // 2]
+    for want in ("int-in-list", "int", "bool"):
+        for t in order:
+            evs = t.get("ev", t.get("events")) if isinstance(t, dict) else None
+            cands = []
+
+            def walk(node, under, inlist, setter):
+                if isinstance(node, dict):
+                    for k in sorted(node):
+                        if k in ("id", "tid", "seed", "i", "cut", "cr", "k", "op", "kind"):
+                            continue
+                        walk(node[k], under or k in observed, False, (node, k))
+                elif isinstance(node, list):
+                    for idx, v in enumerate(node):
+                        walk(v, under, True, (node, idx))
+                elif under and isinstance(node, bool):
+                    if want == "bool":
+                        cands.append(setter)
+                elif under and isinstance(node, int):
+                    if want == "int" or (want == "int-in-list" and inlist):
+                        cands.append(setter)
+
+            walk(evs if evs else t, False, False, None)
+            if cands:
+                holder, key = cands[len(cands) // 2]
+                holder[key] = (not holder[key]) if isinstance(holder[key], bool) else holder[key] + 7   # more than any quantisation allowance
+                return bad
     return bad
 
 
